@@ -47,6 +47,7 @@ def labelClauses (what : String) (e : Json) (sp : SpanJ) (srcSize : Nat) : List 
   match fieldD e "label" with
   | .null => ([], [])
   | l =>
+    if !(isNull (fieldD l "panic")) then ([what ++ ":display-span-cannot-be-built"], []) else
     match (fieldD l "offset").getNat?, (fieldD l "len").getNat? with
     | .ok off, .ok len =>
       let s1 := if off + len > srcSize then [what ++ ":display-span-outside-text"] else []
